@@ -884,7 +884,11 @@ async fn handler_writers(req: &mut Req<'_>, st: &mut HState) -> io::Result<ExitS
             Ok(())
         }));
     }
-    let results = Join::new(world.clone(), futs).await;
+    let mut join = Join::new(world.clone(), futs);
+    // a handler that propagates I/O errors gives up as soon as one of its sub-tasks fails (try_join): the other
+    // writers are dropped where they stand, possibly in the middle of a record
+    if lock(&world).force_propagate { join.fail_fast = Some(|r: &io::Result<()>| r.is_err()); }
+    let results = join.await;
     for r in results {
         r?;
     }
@@ -947,6 +951,7 @@ pub fn gen_knobs(cx: &mut Ctx, spurious: bool, wire_len: usize) -> Knobs {
         deliver_style: if calm { cx.ch.one_of(&[0u32, 2]) } else { cx.ch.weighted(&[3, 2, 3]) as u32 },
         spurious_polls: if spurious { cx.ch.one_of(&[0u32, 0, 1, 4]) } else { 0 },
         fresh_wakers: cx.ch.chance(1, 2),
+        vectored_first_only: cx.ch.chance(1, 4),
     }
 }
 
@@ -1249,8 +1254,8 @@ pub fn check_replies(out: &ConnOutcome, plan: &Plan, read_upto: usize, exact: bo
 pub const F_TRANSPORT: &[&str] = &["short_read", "read_pending_nodata", "read_pending_withdata", "short_write", "write_pending"];
 pub const F_FLUSH: &[&str] = &["flush_pending", "spurious_child_poll"];
 pub const F_SPURIOUS: &[&str] = &["spurious_poll"];
-pub const F_INJECT: &[&str] = &["read_error", "eof_injected", "write_error", "zero_write"];
-pub const P_BASE: &[&str] = &["buffer_holds_whole_huge_record", "read_filled_buffer", "write_cut_in_header", "write_cut_at_seam", "write_cut_in_padding", "requests_2plus", "buffer_24", "fresh_waker_per_poll"];
+pub const F_INJECT: &[&str] = &["read_error", "eof_injected", "write_error", "zero_write", "flush_error"];
+pub const P_BASE: &[&str] = &["buffer_holds_whole_huge_record", "read_filled_buffer", "write_cut_in_header", "write_cut_at_seam", "write_cut_in_padding", "requests_2plus", "buffer_24", "fresh_waker_per_poll", "vectored_write_first_slice_only"];
 pub const P_C07: &[&str] = &["read_abandoned_while_pending", "keep_conn_reuse", "no_keep_conn_close", "handler_left_input_unread", "long_lived_connection"];
 #[allow(dead_code)]
 pub const D2_FAULTS: &[&str] = &[
@@ -1578,7 +1583,7 @@ pub fn c11(cx: &mut Ctx) -> VResult {
     Ok(())
 }
 
-pub const C12_PROBES: &[&str] = &["fault_points_eof", "fault_points_read_err", "fault_points_write_err", "fault_points_write_zero", "handler_got_unexpected_eof", "handler_got_injected_error", "fault_in_preamble", "fault_in_handler", "fault_in_close"];
+pub const C12_PROBES: &[&str] = &["fault_points_eof", "fault_points_read_err", "fault_points_write_err", "fault_points_write_zero", "fault_points_flush_err", "sibling_subtasks_dropped_on_error", "handler_got_unexpected_eof", "handler_got_injected_error", "fault_in_preamble", "fault_in_handler", "fault_in_close"];
 
 /// C12: fault enumeration. One seeded script; then EOF at every input offset, a read error at every
 /// read call, a write error and a zero-length write at every write call, each in a fresh run that
@@ -1597,8 +1602,8 @@ pub fn c12(cx: &mut Ctx) -> VResult {
     let rkind = match cx.ch.pick(4) { 0 => io::ErrorKind::ConnectionReset, 1 => io::ErrorKind::Interrupted, 2 => io::ErrorKind::TimedOut, _ => io::ErrorKind::Other };
     // fault-free reference run, recording the choice list of the run itself
     let start = cx.ch.log.len();
+    let hmode = match cx.ch.weighted(&[5, 2, 1]) { 0 => HandlerMode::Seq, 1 => HandlerMode::Readers, _ => HandlerMode::Writers };
     let inner = take_cx(cx);
-    let hmode = if cx.ch.chance(1, 4) { HandlerMode::Readers } else { HandlerMode::Seq };
     let copts = |rf, wf| ConnOpts { mode: hmode, rfault: rf, wfault: wf, shutdown: None, strict_no_spurious: true };
     let mut out = run_conn_with(inner, &plan, knobs, &copts(RFault::None, WFault::None), |w| w.force_propagate = true);
     give_back(cx, &mut out);
@@ -1609,11 +1614,13 @@ pub fn c12(cx: &mut Ctx) -> VResult {
     let n_in = plan.wire.len();
     let n_reads = out.world.read_calls;
     let n_writes = out.world.write_calls;
+    let n_flushes = out.world.flush_calls;
     let stride = |n: usize| -> usize { (n / 400).max(1) };
     let mut faults: Vec<(RFault, WFault)> = Vec::new();
     for o in (0..=n_in).step_by(stride(n_in)) { faults.push((RFault::EofAt(o), WFault::None)); }
     for c in (0..n_reads + 1).step_by(stride(n_reads)) { faults.push((RFault::ErrAtCall(c), WFault::None)); }
     for c in (0..n_writes + 1).step_by(stride(n_writes)) { faults.push((RFault::None, WFault::ErrAtCall(c))); faults.push((RFault::None, WFault::ZeroAtCall(c))); }
+    for c in (0..n_flushes).step_by(stride(n_flushes)) { faults.push((RFault::None, WFault::FlushErrAtCall(c))); }
     cx.nontrivial = true;
     for (rf, wf) in faults {
         let mut icx = Ctx::new(Chooser::replay(script.clone()), cx.trace);
@@ -1631,16 +1638,17 @@ pub fn c12(cx: &mut Ctx) -> VResult {
             (RFault::EofAt(_), _) => cx.probe("fault_points_eof"),
             (RFault::ErrAtCall(_), _) => cx.probe("fault_points_read_err"),
             (_, WFault::ErrAtCall(_)) => cx.probe("fault_points_write_err"),
+            (_, WFault::FlushErrAtCall(_)) => cx.probe("fault_points_flush_err"),
             _ => cx.probe("fault_points_write_zero"),
         }
         let w = &fo.world;
         let fired = w.cx.st.faults.get("eof_injected").copied().unwrap_or(0) + w.cx.st.faults.get("read_error").copied().unwrap_or(0)
-            + w.cx.st.faults.get("write_error").copied().unwrap_or(0) + w.cx.st.faults.get("zero_write").copied().unwrap_or(0);
+            + w.cx.st.faults.get("write_error").copied().unwrap_or(0) + w.cx.st.faults.get("zero_write").copied().unwrap_or(0) + w.cx.st.faults.get("flush_error").copied().unwrap_or(0);
         if fired > 0 {
             let phase = if w.handler_log.iter().any(|h| !h.finished) || w.handler_log.last().map_or(false, |h| h.status.as_deref().map_or(false, |s| s.starts_with("err:"))) { "fault_in_handler" } else if w.handler_log.len() > w.end_requests { "fault_in_close" } else { "fault_in_preamble" };
             cx.probe(phase);
         }
-        let site = match (rf, wf) { (RFault::EofAt(_), _) => "eof", (RFault::ErrAtCall(_), _) => "read_error", (_, WFault::ErrAtCall(_)) => "write_error", _ => "zero_write" };
+        let site = match (rf, wf) { (RFault::EofAt(_), _) => "eof", (RFault::ErrAtCall(_), _) => "read_error", (_, WFault::ErrAtCall(_)) => "write_error", (_, WFault::FlushErrAtCall(_)) => "flush_error", _ => "zero_write" };
         // 1. termination without panic or spinning
         if let Some(p) = &fo.task_panicked { vfail!("c12_panic", site, "fault {label}: connection task panicked: {p}"); }
         for inv in &w.handler_log { if let Some(v) = &inv.violation { return Err(Violation::new(&v.oracle, site, format!("fault {label}: {}", v.detail))); } }
@@ -1760,8 +1768,8 @@ pub fn c12_hostile(cx: &mut Ctx) -> VResult {
     if cx.want_sample { cx.sample = Some(format!("bufsize={} hostile wire={}", plan.bufsize, hex(&plan.wire[..plan.wire.len().min(400)]))); }
     cx.nontrivial = true;
     let knobs = gen_knobs(cx, true, plan.wire.len());
-    let inner = take_cx(cx);
     let hmode = if cx.ch.chance(1, 4) { HandlerMode::Readers } else { HandlerMode::Seq };
+    let inner = take_cx(cx);
     let mut out = run_conn(inner, &plan, knobs, &ConnOpts { mode: hmode, rfault: RFault::None, wfault: WFault::None, shutdown: None, strict_no_spurious: false });
     give_back(cx, &mut out);
     let w = &out.world;
@@ -1808,8 +1816,8 @@ pub fn c05_async(cx: &mut Ctx) -> VResult {
     note_plan(cx, &plan);
     if plan.reqs.len() >= 3 { cx.probe("pipelined_requests_3plus"); }
     let knobs = gen_knobs(cx, true, plan.wire.len());
-    let inner = take_cx(cx);
     let hmode = if cx.ch.chance(1, 3) { HandlerMode::Readers } else { HandlerMode::Seq };
+    let inner = take_cx(cx);
     let mut out = run_conn_with(inner, &plan, knobs, &ConnOpts { mode: hmode, rfault: RFault::None, wfault: WFault::None, shutdown: None, strict_no_spurious: false }, |w| w.read_everything = true);
     give_back(cx, &mut out);
     for (i, inv) in out.world.handler_log.iter().enumerate() {
